@@ -14,7 +14,17 @@ Conformance     for every universe element: corrupted copy of a base image; real
                 left out, so the key does not move with the allocation layout of the base images (signature()).
 Closed universe both tiers draw from the same set: every (profile, recipe) of the catalogue (recomputed and stale checksum), every
                 pair of the pair seeds and the closed triples that binds on the base image.  thorough runs ALL of it (48 141
-                elements on the 15 profiles, ~13-17 min on the loaded 16-core machine); quick is a seeded subset of it.  The
+                elements on the 15 profiles, ~13-17 min on the loaded 16-core machine); quick is a seeded subset of it.
+Boundary images the base images are 8-32 MiB: one meta group, two htree levels, extents far below the format's length limits.
+                Corrupt.tla!StartImages states starting images AT those limits from the format constants (meta_bg with >= 3 meta
+                groups and 32- / 64-byte descriptors; written / unwritten extents at EXT_INIT_MAX_LEN / EXT_UNINIT_MAX_LEN and
+                adjacent runs one block beyond, in trees of depth 0/1/2; large_dir directories whose index needs DxCap1, DxCap1+1,
+                DxCap2, DxCap2+1, DxTwoSecond leaves, linear and indexed), TLC enumerates them with the recipes that run on each
+                kind (ImageRecipes: the image as built, the boundary roles -- descriptors / bitmaps of the first, a middle and
+                the last meta group, inode / leaf / index block of every long-extent file, second- and third-level index blocks --
+                and the catalogue roles that bind) and gen/c01_extras.py builds them with the tools of the tree under test
+                (profile "x:<name>").  quick runs Mandatory(kind) + a seeded sample on each image (the DxCap2 directories are
+                thorough-only), thorough every recipe that binds.  The
                 known list (fixes/C01_known_findings.txt = the C01 lines of known_findings.txt) is regenerated from a full
                 thorough run on the unchanged tree with `python3 checks/c01.py mkknown` (bottom of this file).
 """
@@ -26,18 +36,70 @@ for _d in ("lib", "checks", "reader", "gen"):       # only needed for `python3 c
 from common import VERIF, fast_tmp, seed, die_broken, NPROC, tool_env
 import build, tlc as T
 from evidence import Evidence, Verdict
-import mkbase, corrupt
+import mkbase, corrupt, c01_extras
 import c02 as H          # shared harness: worker pool, binding map, TLC line validation
 
 PID = "C01"
 QUICK_N = int(os.environ.get("C01_QUICK_N", "1500"))
 QUICK_PAIRS = int(os.environ.get("C01_QUICK_PAIRS", "200"))
+# boundary images (Corrupt.tla!StartImages, gen/c01_extras.py): quick = Mandatory(kind) + a seeded sample of ImageRecipes(kind) of this
+# size per image (an element on the 16 000-block directories costs ~1 s of e2fsck, on the others ~30 ms)
+QUICK_X = {"metabg": int(os.environ.get("C01_QUICK_X_METABG", "150")), "longext": int(os.environ.get("C01_QUICK_X_LONGEXT", "150")),
+           "bigdir": int(os.environ.get("C01_QUICK_X_BIGDIR", "60")), "bigdir_large": int(os.environ.get("C01_QUICK_X_BIGDIR_LARGE", "6"))}
+
+_X = {"images": {}, "bases": {}}          # boundary images of this run; filled before the pool forks
+
+
+def _base(profile):
+    """base image of gen/mkbase.py, or ("x:<name>") a boundary image of gen/c01_extras.py"""
+    if not profile.startswith("x:"):
+        return H._base(profile)
+    B = _X["bases"].get(profile)
+    if B is None:
+        B = c01_extras.XBase(_X["images"][profile[2:]], None)
+        _X["bases"][profile] = B
+    return B
+
+
+def _xbindable(args):
+    profile, recs = args
+    B = _base(profile)
+    return [k for k, r in recs if B.bind(r) is not None]
+
+
+def select_boundary(tier, U, pool, rng):
+    """universe elements on the boundary images: -> [(profile, [recipe], False)], stats.  thorough: every recipe of
+    Corrupt.tla!ImageRecipes(kind) that binds; quick: Mandatory(kind) + a seeded sample of the rest."""
+    bd = U["boundary"]
+    names = [n for n, i in sorted(_X["images"].items()) if i.get("built")]
+    rec = {k: sorted(v, key=corrupt.rkey) for k, v in bd["recipes"].items()}
+    kinds = {n: _X["images"][n]["kind"] for n in names}
+    binds = pool.map(_xbindable, [("x:" + n, list(enumerate(rec[kinds[n]]))) for n in names], chunksize=1)
+    cases, stats = [], {}
+    for n, ks in zip(names, binds):
+        kind = kinds[n]
+        R = rec[kind]
+        mand = set(corrupt.rname(r) for r in bd["mandatory"][kind])
+        if tier == "quick":
+            must = [k for k in ks if corrupt.rname(R[k]) in mand]
+            rest = [k for k in ks if corrupt.rname(R[k]) not in mand]
+            large = kind == "bigdir" and _X["images"][n]["spec"]["leaves"] > 1000
+            pick = must + sorted(rng.sample(rest, min(len(rest), QUICK_X["bigdir_large" if large else kind])))
+        else:
+            must = [k for k in ks if corrupt.rname(R[k]) in mand]
+            pick = ks
+        only = os.environ.get("VERIF_ONLY")
+        if only:
+            pick = [k for k in ks if re.search(only, corrupt.rname(R[k]))]
+        stats[n] = {"recipes": len(R), "bindable": len(ks), "mandatory_bound": len(must), "selected": len(pick)}
+        cases += [("x:" + n, [R[k]], False) for k in pick]
+    return cases, stats
 
 
 def _case(args):
     k, profile, recs = args
     G = H._G
-    B = H._base(profile)
+    B = _base(profile)
     img = os.path.join(G["work"], "y%d_%d.img" % (os.getpid(), k))
     log = img + ".log"
     meta = {"id": k, "profile": profile, "recipe": corrupt.rname(recs)}
@@ -113,10 +175,27 @@ def run(tier):
         # the in-memory containers the passes rely on (ea_refcount, icount, dblist, badblocks, region): spec/Cont*.tla
         import c01_containers
         ncont = c01_containers.run(b, ev, vd, tier, work, random.Random(seed() * 7919 + 5))
+        # the boundary images (Corrupt.tla!StartImages), built by the tools of the tree under test
+        t0 = time.time()
+        try:
+            ximgs = c01_extras.images(b, U, tier, os.path.join(basedir, "tree"), build.driver(b, "c01mk"))
+        except RuntimeError as ex:
+            die_broken(str(ex))
+        _X["images"] = {i["name"]: i for i in ximgs}
+        _X["bases"] = {}
+        ev.cov["boundary_images"] = {i["name"]: {k: i.get(k) for k in ("kind", "built", "ok", "fsck_fn_rc", "geo", "dir", "shapes", "err") if i.get(k) is not None}
+                                     for i in ximgs}
+        ev.cov["boundary_build_s"] = round(time.time() - t0, 1)
         pool = mp.Pool(H.JOBS, initializer=H._init, initargs=(b, basedir, work))
         try:
             cases, ustats = H.select(tier, U, profiles, pool, rng, quick_n=QUICK_N, quick_pairs=QUICK_PAIRS, all_stale=True)
-            ev.cov["universe"] = dict(ustats, profiles=profiles, selected=len(cases))
+            xcases, xstats = select_boundary(tier, U, pool, random.Random(seed() * 7919 + 11))
+            if os.environ.get("VERIF_ONLY_BOUNDARY"):
+                cases = []
+            cases = cases + xcases
+            for n, x in xstats.items():
+                ev.cov["boundary_images"][n].update(x)
+            ev.cov["universe"] = dict(ustats, profiles=profiles, selected=len(cases), boundary_selected=len(xcases))
             t0 = time.time()
             results = pool.map(_case, [(k, p, recs) for k, (p, recs, _) in enumerate(cases)], chunksize=8)
             ev.cov["tool_phase_s"] = round(time.time() - t0, 1)
@@ -180,6 +259,13 @@ def run(tier):
             "a run killed by a signal or by the 60 s timeout claims nothing (exit -1); such runs are counted (killed_or_timeout) and belong to C06",
             "universe = base images of gen/mkbase.py x Corrupt.tla catalogue (singles with recomputed and stale checksums, all pairs of the pair seeds, closed triples); "
             "thorough runs every bindable element, quick a seeded subset of the same set",
+            "plus the boundary catalogue of Corrupt.tla (StartImages x ImageRecipes): meta_bg filesystems with >= 3 meta groups (32- and 64-byte descriptors; "
+            "descriptor / bitmap roles bound in the first, a middle and the last meta group), one sparse filesystem with written / unwritten extents at "
+            "EXT_INIT_MAX_LEN / EXT_UNINIT_MAX_LEN and adjacent runs one block beyond, in trees of depth 0 / 1 / 2, and large_dir directories whose index needs "
+            "DxCap1, DxCap1+1, DxTwoSecond (quick and thorough), DxCap2, DxCap2+1 (thorough) leaves, as a linear file and indexed; built by the tools of the tree "
+            "under test (gen/c01_extras.py, harness/c01mk.c); a boundary image enters whatever e2fsck -fn says about it as built (the property quantifies over "
+            "every image); quick runs Mandatory(kind) + a seeded sample on each, thorough every recipe of ImageRecipes(kind) that binds; C02 does not run them "
+            "(the reader's projection of the 450 MiB / 48 000-entry images is not handed to TLC)",
             "known findings are matched by profile | role.field of the recipes | second run's ordered problem codes with inode numbers (no block / group numbers)",
         ]
         return vd.finish()
@@ -198,7 +284,13 @@ def replay(path):
     work = fast_tmp()
     try:
         H._init(b, basedir, work)
-        B = H._base(rp["profile"])
+        if rp["profile"].startswith("x:"):
+            U, _ = corrupt.universe(os.path.dirname(basedir))
+            ximgs = c01_extras.images(b, U, "thorough", os.path.join(basedir, "tree"), build.driver(b, "c01mk"), only=rp["profile"][2:])
+            _X["images"] = {i["name"]: i for i in ximgs}
+            if not _X["images"].get(rp["profile"][2:], {}).get("built"):
+                die_broken("boundary image %s could not be built" % rp["profile"])
+        B = _base(rp["profile"])
         img = os.path.join(work, "replay.img")
         # the recipe is bound again on the base image of THIS tree (byte offsets saved in "patches" belong to the base image of the
         # tree the replay was recorded on; they are used only when the replay names no recipe)
@@ -206,10 +298,10 @@ def replay(path):
         if pt is None:
             if rp.get("recipes"):
                 print("recipe %s does not bind on the %s base image of this tree; applying the recorded byte patches" % (rp["recipes"], rp["profile"]))
-            buf = bytearray(B.raw)
-            for o, hx in rp["patches"]:
-                bts = bytes.fromhex(hx); buf[o:o + len(bts)] = bts
-            open(img, "wb").write(buf)
+            c01_extras.sparse_copy(B.path, img)
+            with open(img, "r+b") as f:
+                for o, hx in rp["patches"]:
+                    f.seek(o); f.write(bytes.fromhex(hx))
         rc1, p1, out1 = corrupt.run_fsck(H._G["fsck"], "-fy", img, H._G["env"], img + ".log")
         rc2, p2, out2 = corrupt.run_fsck(H._G["fsck"], "-fn", img, H._G["env"], img + ".log")
         sigs = [corrupt.sig_of(p) for p in (p2 or [])]
